@@ -1,6 +1,7 @@
 package main
 
 import (
+	"sort"
 	"strings"
 
 	"golang.org/x/tools/go/ssa"
@@ -36,6 +37,25 @@ func checkC19(c *Check) {
 	// same model, same output within one process: a generator that returns the
 	// content of a buffer kept in a long-lived view must start from an empty buffer
 	c.Counts["buffer_returning_call_sites"] = freshBuffers(c, "FRESH-BUFFER", func(f *ssa.Function) bool { return c19Scope(p, f) })
+	// … and must leave the model it read as it found it: a write into a model
+	// object the generator did not create shows in the next run over the same
+	// module (diagram generators, exporters, script writers; not the importers
+	// and the compiler, whose job is to build the model)
+	var gens []*ssa.Function
+	for _, f := range p.RepoFuncs() {
+		if !c19Scope(p, f) || p.isGeneratedFile(p.fnFile(f)) {
+			continue
+		}
+		switch pk := strings.TrimPrefix(fnPkgPath(f), repoMod+"/"); {
+		case pk == "pkg/cmdutils", pk == "pkg/sequencediagram", pk == "pkg/integrationdiagram", pk == "pkg/datamodeldiagram",
+			pk == "pkg/database", pk == "pkg/exporter", pk == "pkg/syslwrapper", pk == "pkg/printer", pk == "pkg/arrai/relmod",
+			strings.HasPrefix(pk, "pkg/mermaid"):
+			gens = append(gens, f)
+		}
+	}
+	sort.Slice(gens, func(i, j int) bool { return fnName(gens[i]) < fnName(gens[j]) })
+	c.Counts["model_writes"] = modelWrites(c, "MODEL-READ-ONLY", gens)
+	c.Okf("MODEL-READ-ONLY", "scan", "-", "%d functions of the generator packages scanned for writes into model objects they did not create: %d found", len(gens), c.Counts["model_writes"])
 }
 
 // nondetSources: calls that read the clock, random numbers, process identity,
